@@ -161,6 +161,8 @@ theorem readDurMag?_eq (r0 : Str) : readDurMag? ('P' :: r0) =
           + ((optUnit 'H' r2).1 * 3600 + (optUnit 'M' (optUnit 'H' r2).2).1 * 60) * 1000000)
         (optUnit 'M' (optUnit 'H' r2).2).2
     | _ => none := by
+  simp only [readDurMag?]
+  delta optUnit readSecs?
   rfl
 
 /-- The text of an optional component as the writer emits it. -/
@@ -193,7 +195,8 @@ theorem readUnit?_unitPart_other (u c : Char) (hc : isDigit c = false) (hne : c 
 theorem readUnit?_secPart (u : Char) (hS : 'S' ≠ u) (hdot : '.' ≠ u) (s f : Nat) : readUnit? u (secPart s f) = none := by
   unfold secPart
   split
-  · exact readUnit?_other u '.' (by decide) hdot s _
+  · simp only [List.append_assoc, List.cons_append]
+    exact readUnit?_other u '.' (by decide) hdot s _
   · split
     · exact readUnit?_stops u rfl
     · exact readUnit?_other u 'S' (by decide) hS s _
@@ -216,14 +219,15 @@ theorem readSecs?_secPart (base s f : Nat) (hf : f < 1000000) :
       · simp [hsp, natStr_ne_nil, digitsVal_natStr]
   · have : (f != 0) = true := by simpa using hf0
     simp only [this, if_true]
-    have hsp : spanDigits (natStr s ++ '.' :: pad 6 f ++ ['S']) = (natStr s, '.' :: pad 6 f ++ ['S']) :=
+    have hsp : spanDigits (natStr s ++ '.' :: (pad 6 f ++ ['S'])) = (natStr s, '.' :: (pad 6 f ++ ['S'])) :=
       spanDigits_natStr s rfl
     have hsp2 : spanDigits (pad 6 f ++ ['S']) = (pad 6 f, ['S']) :=
       spanDigits_append (fun _ hc => isDigit_of_mem_pad hc) rfl
     have hl : (pad 6 f).length = 6 := pad_length (by decide) (by simpa using hf)
     have hpne : pad 6 f ≠ [] := by
       intro h; rw [h] at hl; cases hl
-    have hne : natStr s ++ '.' :: pad 6 f ++ ['S'] ≠ [] := by simp
+    have hne : natStr s ++ '.' :: (pad 6 f ++ ['S']) ≠ [] := by simp
+    simp only [List.append_assoc, List.cons_append]
     unfold readSecs?
     split
     · contradiction
@@ -281,7 +285,7 @@ theorem readDurMag?_durParts (d h m s f : Nat) (hf : f < 1000000) :
     have hne : (unitPart 'D' d).isEmpty = false := hd
     rw [readDurMag?_eq, h1]
     simp [hne]
-  · rw [readDurMag?_eq]
+  · rw [List.cons_append, readDurMag?_eq]
     have h1 := optUnit_unitPart 'D' (by decide) d ('T' :: (unitPart 'H' h ++ unitPart 'M' m ++ secPart s f))
       (readUnit?_stops 'D' rfl)
     have h3 : readUnit? 'H' (unitPart 'M' m ++ secPart s f) = none :=
@@ -343,6 +347,7 @@ theorem parseTemporal?_of_readDur {s : Str} {us : Int} (h : readDur? s = some us
   · rename_i r
     have had : allDigits ('-' :: 'P' :: r) = false := by simp [allDigits, isDigit]
     simp only [parseTemporal?, had, Bool.false_eq_true, if_false]
+    simp only [List.drop_succ_cons, List.drop_zero] at h ⊢
     split at h
     · rename_i m hm
       simp only [Option.some.injEq] at h
